@@ -878,7 +878,7 @@ mod verif_hashtbl {
     /// strict reading of the field doc: `free` is THE number of free slots
     #[kani::proof]
     #[kani::unwind(17)]
-    fn clear_16_free_exact() {
+    fn clear_free_exact_16() {
         let h: H = kani::any();
         let mut t = any_wf16(&h);
         kani::assume(free_exact(&t));
@@ -902,7 +902,7 @@ mod verif_hashtbl {
     }
     #[kani::proof]
     #[kani::unwind(17)]
-    fn clear_no_drop_16_free_exact() {
+    fn clear_no_drop_free_exact_16() {
         let h: H = kani::any();
         let mut t = any_wf16(&h);
         kani::assume(free_exact(&t));
@@ -1106,7 +1106,7 @@ mod verif_hashtbl {
     /// IntoIter dropped after `m` elements (exercises IntoIter::drop)
     #[kani::proof]
     #[kani::unwind(17)]
-    fn into_iter_16_early_drop() {
+    fn into_iter_early_drop_16() {
         let h: H = kani::any();
         let t = any_wf16(&h);
         let s = snap::<16>(&t);
